@@ -2,20 +2,20 @@ CONSTANTS
   FlowSet = {"flows/a.yaml", "flows/b.yaml"}
   Endpoints = {"configuration", "apply_flows"}
   Methods = {"PUT", "POST"}
-  MaxNth = 2
+  MaxNth = 3
   WithBadB64 = TRUE
-  MxOld = {"m1"}
+  MxOld = {"none"}
   GwOld = {"none"}
   AnchorFlows = {"flows/a.yaml"}
   Paths <- PathsMC
   Cat <- CatMC
-  Txns = {1}
+  Txns = {}
   RestoreWrongDirection = FALSE
   PublishBeforeInit = FALSE
   ContinueAfter405 = FALSE
   ApplyNoBackup = FALSE
-  NoReloadAfterRestore = TRUE
+  NoReloadAfterRestore = FALSE
   MetricsToDefaultPath = FALSE
 SPECIFICATION SpecMC
-INVARIANTS DiskAtomic BehavAtomic NeverHalf OneConfig
+INVARIANT Emit
 CHECK_DEADLOCK FALSE
